@@ -1215,9 +1215,10 @@ def run(ctx):
   ctx.extra['quirk_flags'] = dict(copy_drops_missing=quirks[0])
   # wall-clock budgets of the tier (the machine may be busy): hand-written cases and the sweep always run; generated histories and typed
   # trees stop when their budget is used; what was not run is reported, never silently dropped
-  deadline_priming = t_start + ctx.scale(38, 240)
-  deadline_random = t_start + ctx.scale(62, 900)
-  deadline_typed = t_start + ctx.scale(95, 1300)
+  # (counted from the end of the Coq build, which is a no-op once the .vo files are there)
+  deadline_priming = t0 + ctx.scale(34, 240)
+  deadline_random = t0 + ctx.scale(58, 900)
+  deadline_typed = t0 + ctx.scale(90, 1300)
   fixed = [('corpus:' + name, [quirks, c[1], c[2]]) for name, c in CORPUS9.items()]
   fixed += [(name, [quirks, c[1], c[2]]) for name, c in sweep_cases(ctx.scale(1, 3))]
   n = ctx.scale(600, 30000)
